@@ -279,7 +279,16 @@ func decodeStructValueSlice(field reflect.Value, fieldType reflect.StructField, 
 
 	value = strings.Trim(value, strip)
 
-	for _, el := range strings.Split(value, delim) {
+	var els []string
+	if delim == " " {
+		/* Blank-separated lists may be folded and padded: split on any run
+		 * of blanks, and an empty value has no elements. */
+		els = strings.Fields(value)
+	} else {
+		els = strings.Split(value, delim)
+	}
+
+	for _, el := range els {
 		el = strings.Trim(el, strip)
 
 		targetValue := reflect.New(underlyingType)
